@@ -54,15 +54,15 @@ fn collect_tagged_keys(
                             .ok_or(Error::YamlInvalidSDTag(key_str))?
                             .to_string();
                         // nested paths first: the issuer hides a claim after the claims inside it
-                        path.push_back(new_val.clone());
+                        path.push_back(escape_segment(&new_val));
                         collect_tagged_keys(&mut value, path, paths)?;
                         path.pop_back();
-                        paths.push(build_full_path(path, &new_val));
+                        paths.push(build_full_path(path, &escape_segment(&new_val)));
                         untagged.insert(YamlValue::String(new_val), value);
                         continue;
                     }
                 } else if let YamlValue::String(key) = &key {
-                    path.push_back(key.to_string());
+                    path.push_back(escape_segment(key));
                     collect_tagged_keys(&mut value, path, paths)?;
                     path.pop_back();
                 }
@@ -107,6 +107,11 @@ fn collect_tagged_keys(
     }
 
     Ok(())
+}
+
+// path segments are JSON pointer tokens (RFC 6901)
+fn escape_segment(segment: &str) -> String {
+    segment.replace('~', "~0").replace('/', "~1")
 }
 
 fn build_full_path(path: &VecDeque<String>, additional_segment: &str) -> String {
